@@ -1,6 +1,7 @@
 package snapshot
 
 import (
+	"fmt"
 	"io"
 
 	"github.com/CrowdStrike/csproto"
@@ -72,6 +73,26 @@ func (s *Snapshot) Unmarshal(data []byte) error {
 				return err
 			}
 		}
+	}
+	return nil
+}
+
+// Validate decodes every entry of every DBI once, so that corruption inside the
+// lazily decoded entry data is detected when a snapshot is received instead of
+// in the middle of the merge transaction. The read cursors are reset afterwards.
+func (s *Snapshot) Validate() error {
+	for _, dbi := range s.Databases {
+		dbi.ResetCursor()
+		for {
+			_, err := dbi.Next()
+			if err != nil {
+				if err == io.EOF {
+					break
+				}
+				return fmt.Errorf("dbi %q: invalid entry: %w", dbi.Name(), err)
+			}
+		}
+		dbi.ResetCursor()
 	}
 	return nil
 }
